@@ -409,7 +409,10 @@ func (a *jwtAuthenticator) getKey(
 		if entry, err := cch.Get(ctx.AppContext(), cacheKey); err == nil {
 			var jwk jose.JSONWebKey
 
-			if err = json.Unmarshal(entry, &jwk); err == nil {
+			// the key might have been cached by another jwt authenticator instance using the same endpoint,
+			// but having other requirements regarding the validity of the key (trust store, etc). So, the
+			// cached key must be validated as well
+			if err = json.Unmarshal(entry, &jwk); err == nil && a.validateJWK(&jwk) == nil {
 				logger.Debug().Msg("Reusing JWK from cache")
 
 				return &jwk, nil
